@@ -15,7 +15,7 @@ from .values import (Sym, Union, VObj, VInst, VList, VDict, VSet, VCell, VFunc, 
 from . import containers as C
 from . import prelude
 
-MISSING = object()
+from .values import MISSING  # noqa: E402
 MAX_COMBOS = 4096
 
 
@@ -129,7 +129,7 @@ def _isinstance_atomic(vm, x, cls):
     if t is VInst:
         return issubclass(x.cls, cls)
     if t is Sym:
-        proto = {"bool": True, "int": 0, "real": 0.0}[x.sort]
+        proto = {"bool": True, "int": 0, "real": 0.0, "bits": 0, "bv": 0}[x.sort]
         return isinstance(proto, cls)
     if t is VList:
         return isinstance(collections.deque() if x.kind == "deque" else [], cls)
@@ -282,7 +282,7 @@ def m_type(vm, s, args, kw):
         if t is VInst:
             return x.cls
         if t is Sym:
-            return {"bool": bool, "int": int, "real": float}[x.sort]
+            return {"bool": bool, "int": int, "real": float, "bits": int, "bv": int}[x.sort]
         if t is VList:
             return collections.deque if x.kind == "deque" else list
         if t is VDict:
@@ -598,5 +598,6 @@ def install(vm):
         reg(getattr(logging.Logger, name), m_logger_noop)
     if "vf.prelude" not in vm.encode:
         vm.encode = vm.encode + ("vf.prelude",)
-    from . import api
+    from . import api, prims
     api.install(vm)
+    prims.install(vm)
